@@ -286,3 +286,68 @@ Qed.
 
 Lemma pins_cbu_all_passes : forall kf p, pins_tracked kf p 2 = true -> forall n, pcbu (run_sketch kf p n) = true.
 Proof. intros kf p H n. apply pins_tracked_cbu. apply pins_tracked_two_all. exact H. Qed.
+
+(* ------------------------------------------------------------------ where the name in the key is NOT needed *)
+(* In a stretch of text without assignments (the hoisted block at the top of setup() is one) the same text has the same
+   value, so de-duplicating on (text, mode) alone loses no configuration: every request is honoured by an executed
+   pinMode with its numeric pin.  The device name in emit()'s keys matters only across assignments. *)
+Fixpoint noset (l : list act) : bool :=
+  match l with [] => true | ASet _ _ :: _ => false | _ :: t => noset t end.
+
+Fixpoint text_keyed (l : list act) : bool :=
+  match l with
+  | [] => true
+  | AReq k e m :: t => pkey_eqb k (0, e, m) && text_keyed t
+  | _ :: t => text_keyed t
+  end.
+
+Fixpoint cfg_of (cfg : list (Z * Z)) (t : list pev) : list (Z * Z) :=
+  match t with
+  | [] => cfg
+  | PCfg p m :: t' => cfg_of ((p, m) :: cfg) t'
+  | PUse _ _ :: t' => cfg_of cfg t'
+  end.
+
+Lemma cfg_of_mono : forall t cfg x, In x cfg -> In x (cfg_of cfg t).
+Proof.
+  induction t as [| e t IH]; intros cfg x H; simpl; [exact H |].
+  destruct e; apply IH; [right; exact H | exact H].
+Qed.
+
+Lemma pkey_eqb_eq : forall a b, pkey_eqb a b = true -> a = b.
+Proof.
+  intros [[n1 e1] t1] [[n2 e2] t2] H. unfold pkey_eqb in H. simpl in H.
+  apply andb_true_iff in H. destruct H as [H H3]. apply andb_true_iff in H. destruct H as [H1 H2].
+  apply Z.eqb_eq in H1. apply Z.eqb_eq in H3. apply pexp_eqb_eq in H2. subst. reflexivity.
+Qed.
+
+Lemma pkmem_in : forall k seen, pkmem k seen = true -> In k seen.
+Proof.
+  intros k seen H. unfold pkmem in H. apply existsb_exists in H. destruct H as [k' [HIn HE]].
+  apply pkey_eqb_eq in HE. subst. exact HIn.
+Qed.
+
+Lemma text_key_honours_requests : forall l seen r cfg,
+  noset l = true -> text_keyed l = true ->
+  (forall e m, In (0, e, m) seen -> In (peval r e, m) cfg) ->
+  forall k e m, In (AReq k e m) l -> In (peval r e, m) (cfg_of cfg (fw seen r l)).
+Proof.
+  induction l as [| a t IH]; intros seen r cfg HN HT HI k e m HIn; [destruct HIn |].
+  destruct a as [x e0 | k0 e0 m0 | e0 m0 | e0 w0]; simpl in HN, HT; try discriminate.
+  - apply andb_true_iff in HT. destruct HT as [HK HT]. apply pkey_eqb_eq in HK. subst k0. simpl.
+    destruct (pkmem (0, e0, m0) seen) eqn:HM.
+    + destruct HIn as [HEq | HIn].
+      * inversion HEq; subst. apply cfg_of_mono. apply HI. apply pkmem_in. exact HM.
+      * apply (IH seen r cfg HN HT HI k e m HIn).
+    + simpl.
+      assert (HI' : forall e1 m1, In (0, e1, m1) ((0, e0, m0) :: seen) -> In (peval r e1, m1) ((peval r e0, m0) :: cfg)).
+      { intros e1 m1 [HEq | HS]; [inversion HEq; subst; left; reflexivity | right; apply HI; exact HS]. }
+      destruct HIn as [HEq | HIn].
+      * inversion HEq; subst. apply cfg_of_mono. left; reflexivity.
+      * apply (IH ((0, e0, m0) :: seen) r _ HN HT HI' k e m HIn).
+  - simpl. destruct HIn as [HEq | HIn]; [discriminate |].
+    apply (IH seen r ((peval r e0, m0) :: cfg) HN HT) with (k := k); [| exact HIn].
+    intros e1 m1 HS. right. apply HI; exact HS.
+  - simpl. destruct HIn as [HEq | HIn]; [discriminate |].
+    apply (IH seen r cfg HN HT HI k e m HIn).
+Qed.
